@@ -355,40 +355,6 @@ impl OrdSpecImpl for Version { open spec fn obeys_cmp_spec() -> bool { true } op
     g.unit('impl BoundSet', lambda: g.emit('m_bound', g.impl_block(RNG, r'^impl BoundSet \{', 'impl BoundSet', K.BOUNDSET, 'BoundSet', 'm_bound', pre=r1_split_or_guard)))
     g.emit('m_bound', P('fmt_model.rs'))
 
-    def u_display():
-        # R9/R10: Display for BoundSet lifted to an inherent fn, write! stubbed
-        dsl = fn_in_impl(RNG, r'^impl fmt::Display for BoundSet \{', 'fmt', 'BoundSet::fmt (Display)')
-        # every `write!(f, ..)` invocation, wherever it stands (paren matched)
-        t = dsl.text
-        n = 0
-        while True:
-            i = t.find('write!(')
-            if i < 0:
-                break
-            depth = 0
-            j = i + len('write!')
-            while j < len(t):
-                if t[j] == '(':
-                    depth += 1
-                elif t[j] == ')':
-                    depth -= 1
-                    if depth == 0:
-                        break
-                elif t[j] == '"':
-                    j += 1
-                    while t[j] != '"':
-                        if t[j] == '\\':
-                            j += 1
-                        j += 1
-                j += 1
-            t = t[:i] + 'verif_fmt_stub(f)' + t[j + 1:]
-            n += 1
-        if n == 0:
-            raise AnchorLost('write! invocations of Display for BoundSet')
-        dsl.text = t.replace('fmt::', 'std::fmt::').replace('fn fmt(', 'fn display_fmt(')
-        dsl.rewrites += ['R9 trait method body lifted to inherent fn display_fmt', 'R10 write!(..) replaced by an opaque stub (%d)' % n]
-        g.emit('m_bound', 'impl BoundSet {\n' + g.inj(dsl, 'BoundSet::display_fmt', 'm_bound', dict(contract='    requires bs_wf(*self),'), make_pub=True) + '\n}')
-    g.unit('BoundSet::display_fmt', u_display)
 
     # ---------------------------------------------------------------- m_range_spec / m_range
     g.emit('m_range_spec', P('range_spec.rs'))
@@ -950,6 +916,18 @@ impl OrdSpecImpl for Version { open spec fn obeys_cmp_spec() -> bool { true } op
     display_unit('Identifier', LIB, K.DISPLAY_CONTRACT, hints=K.IDENT_FMT_HINT)
     display_unit('VersionDiff', LIB, K.DISPLAY_CONTRACT, hints=K.DIFF_HINT)
     display_unit('Version', LIB, K.DISPLAY_CONTRACT, hints=K.VERSION_FMT_HINT, loops=K.VERSION_FMT_LOOPS)
+
+    def u_display():
+        # R9 / R10': Display for BoundSet lifted to an inherent fn; every write! goes through the write! model (A16)
+        dsl = fn_in_impl(RNG, r'^impl fmt::Display for BoundSet \{', 'fmt', 'BoundSet::fmt (Display)')
+        t, n = write_calls(dsl.text)
+        if n == 0:
+            raise AnchorLost('write! invocations of Display for BoundSet')
+        dsl.text = t.replace('fmt::', 'std::fmt::').replace('fn fmt(', 'fn display_fmt(')
+        dsl.rewrites += ['R9 trait method body lifted to inherent fn display_fmt', "R10' %d write!(..) invocations -> verif_writeN (A16)" % n]
+        g.emit('m_fmt', 'impl BoundSet {\n' + g.inj(dsl, 'BoundSet::display_fmt', 'm_fmt', dict(ret='r', contract='    requires bs_wf(*self),\n' + K.DISPLAY_CONTRACT.replace('        ensures', '    ensures'), entry=K.BS_FMT_HINT), make_pub=True) + '\n}')
+    g.unit('BoundSet::display_fmt', u_display)
+    display_unit('Range', RNG, K.DISPLAY_CONTRACT.replace('        ensures', '        requires rwf(*self),\n        ensures'), hints=K.RANGE_FMT_HINT, loops=K.RANGE_FMT_LOOPS)
     g.emit('m_c12', P('c12_props.rs'))
 
     g.shape = source_shape(g, LIB, RNG)
